@@ -30,6 +30,17 @@ func (p *pg) genC09() (Config, Plan) {
 // genC20: fault-free programs with the conservation oracle; weighted towards
 // truncations that empty the log, hit an empty tail, or repeat.
 func (p *pg) genC20() (Config, Plan) {
+	if p.r.Intn(4) == 0 {
+		// injected I/O errors: a failed call must not be counted as done
+		c, plan := p.genErr("C20")
+		for i := 0; i < len(plan.Ops); i += 3 {
+			if plan.Ops[i].Kind == "get" && plan.Ops[i].Fault == nil {
+				plan.Ops[i] = OpSpec{Kind: "quiesce"}
+			}
+		}
+		plan.Ops = append(plan.Ops, OpSpec{Kind: "quiesce"})
+		return c, plan
+	}
 	c := p.baseConfig("C20")
 	c.Strict = p.r.Intn(2) == 0
 	c.SegSize = []int{64, 64, 128, 200, 256, 512, 4096}[p.r.Intn(7)]
